@@ -63,6 +63,7 @@ structure Env where
   slotAttr : Nat → Int → Nat → Int     -- attribute id, slot offset, index (user attributes)
   glyphAttr : Nat → Int → Int          -- glyph attribute id, slot offset
   feat : Nat → Int → Int               -- feature index, slot offset
+  metric : Nat → Int → Int := fun _ _ => 0   -- glyph metric id (advance width ...), slot offset
 
 inductive AOp where
   | push (n : Int)
@@ -72,6 +73,7 @@ inductive AOp where
   | slotAttr (attr : Nat) (off : Int) (idx : Nat)
   | glyphAttr (id : Nat) (off : Int)
   | feat (f : Nat) (off : Int)
+  | metric (m : Nat) (off : Int)
   deriving Repr, DecidableEq
 
 /-- One instruction on the value stack (top first). -/
@@ -87,6 +89,7 @@ def stepA (env : Env) (op : AOp) (st : List Int) : Option (List Int) :=
   | .slotAttr a off i, st => some (env.slotAttr a off i :: st)
   | .glyphAttr g off, st => some (env.glyphAttr g off :: st)
   | .feat f off, st => some (env.feat f off :: st)
+  | .metric m off, st => some (env.metric m off :: st)
 
 def runA (env : Env) : List AOp → List Int → Option (List Int)
   | [], st => some st
@@ -99,6 +102,7 @@ inductive SExpr where
   | slotAttr (attr : Nat) (off : Int) (idx : Nat)
   | glyphAttr (id : Nat) (off : Int)
   | feat (f : Nat) (off : Int)
+  | metric (m : Nat) (off : Int)
   | un (op : UnOp) (e : SExpr)
   | bin (op : BinOp) (a b : SExpr)
   | cond (c t f : SExpr)
@@ -110,6 +114,7 @@ def evalS (env : Env) : SExpr → Option Int
   | .slotAttr a off i => some (env.slotAttr a off i)
   | .glyphAttr g off => some (env.glyphAttr g off)
   | .feat f off => some (env.feat f off)
+  | .metric m off => some (env.metric m off)
   | .un o e => (evalS env e).map (unVal o)
   | .bin o a b =>
     match evalS env a, evalS env b with
@@ -141,6 +146,7 @@ def dstepA (op : AOp) (st : List SExpr) : Option (List SExpr) :=
   | .slotAttr a off i, st => some (.slotAttr a off i :: st)
   | .glyphAttr g off, st => some (.glyphAttr g off :: st)
   | .feat f off, st => some (.feat f off :: st)
+  | .metric m off, st => some (.metric m off :: st)
 
 def decompA : List AOp → List SExpr → Option (List SExpr)
   | [], st => some st
@@ -153,6 +159,7 @@ theorem dstep_sound (env : Env) (op : AOp) (st st' : List SExpr) (h : dstepA op 
   | slotAttr a off i => simp [dstepA] at h; subst h; simp [evalStack, evalS]; cases evalStack env st <;> simp [stepA]
   | glyphAttr g off => simp [dstepA] at h; subst h; simp [evalStack, evalS]; cases evalStack env st <;> simp [stepA]
   | feat f off => simp [dstepA] at h; subst h; simp [evalStack, evalS]; cases evalStack env st <;> simp [stepA]
+  | metric m off => simp [dstepA] at h; subst h; simp [evalStack, evalS]; cases evalStack env st <;> simp [stepA]
   | un o =>
     match st, h with
     | a :: rest, h =>
@@ -220,6 +227,7 @@ theorem noDiv_total (env : Env) (e : SExpr) (h : noDiv e = true) : ∃ v, evalS 
   | slotAttr a off i => exact ⟨_, rfl⟩
   | glyphAttr g off => exact ⟨_, rfl⟩
   | feat f off => exact ⟨_, rfl⟩
+  | metric m off => exact ⟨_, rfl⟩
   | un o e ih =>
     simp [noDiv] at h
     obtain ⟨v, hv⟩ := ih h
@@ -264,6 +272,7 @@ theorem evalS_fold (env : Env) (e : SExpr) : evalS env (fold e) = evalS env e :=
   | slotAttr a off i => rfl
   | glyphAttr g off => rfl
   | feat f off => rfl
+  | metric m off => rfl
   | un o e ih =>
     simp only [fold]
     split
@@ -335,6 +344,7 @@ theorem evalS_foldC (env : Env) (e : SExpr) (v : Int) (h : evalS env e = some v)
   | slotAttr a off i => exact h
   | glyphAttr g off => exact h
   | feat f off => exact h
+  | metric m off => exact h
   | un o e ih =>
     simp only [evalS] at h
     cases he : evalS env e with
@@ -474,6 +484,7 @@ def classify (i : Code.Ins) : Option AOp :=
   else if i.op = kopPushGlyphAttrV1_2 then (match a with | [g, off] => some (.glyphAttr g (s8 off)) | _ => none)
   else if i.op = kopPushGlyphAttr then (match a with | [gh, gl, off] => some (.glyphAttr (gh * 256 + gl) (s8 off)) | _ => none)
   else if i.op = kopPushFeat then (match a with | [f, off] => some (.feat f (s8 off)) | _ => none)
+  else if i.op = kopPushGlyphMetric then (match a with | [m, off, _lvl] => some (.metric m (s8 off)) | _ => none)
   else none
 
 end Grc.Sem
